@@ -366,7 +366,7 @@ theorem DropInv.dropHolder {w : World} {p : Pid} {rest : List HoldRef} (pl : Nat
       refine hweak h ?_
       intro v hv'; rw [hv] at hv'; cases hv'; exact hk
 
-theorem PoolInv.dropResources (w : World) (p : Pid) (hi : PoolInv w) : PoolInv (dropResources w p) := by
+theorem dropResources_dropInv (w : World) (p : Pid) (hi : PoolInv w) : DropInv (dropResources w p) p [] := by
   unfold Sim.dropResources
   dsimp only
   -- after detaching the list from `p`
@@ -389,7 +389,7 @@ theorem PoolInv.dropResources (w : World) (p : Pid) (hi : PoolInv w) : PoolInv (
   generalize (w.proc p).held = hs at h0
   generalize (w.modProc p fun x => { x with held := [] }) = w0 at h0
   induction hs generalizing w0 with
-  | nil => exact h0.close
+  | nil => exact h0
   | cons a rest ih =>
     rw [List.foldl_cons]
     apply ih
@@ -409,6 +409,21 @@ theorem PoolInv.dropResources (w : World) (p : Pid) (hi : PoolInv w) : PoolInv (
         simp [Fp, World.now, World.proc]
       · exact hweak
     | pool pl => exact h0.dropHolder pl
+
+theorem PoolInv.dropResources (w : World) (p : Pid) (hi : PoolInv w) : PoolInv (dropResources w p) :=
+  (dropResources_dropInv w p hi).close
+
+/-- a process that ends holds nothing afterwards (of any pool) -/
+theorem heldOf_dropResources (w : World) (p : Pid) (hi : PoolInv w) (pl : Nat) : heldOf (dropResources w p) pl p = 0 := by
+  have h := dropResources_dropInv w p hi
+  unfold heldOf
+  cases hv : poolView (dropResources w p) pl with
+  | none => rfl
+  | some v =>
+    dsimp only
+    apply HashHeap.amountOf_of_not_mem
+    intro hk
+    exact absurd (h.pending pl v hv hk) (by simp)
 
 theorem PoolInv.finishProc (w : World) (p : Pid) (v : Int) (st : Bool) (hi : PoolInv w) : PoolInv (finishProc w p v st) := by
   unfold Sim.finishProc
